@@ -12,3 +12,12 @@ func VerifMergeCollectionExcess(in <-chan any) <-chan any { return mergeCollecti
 
 // VerifInclude exposes (*CollectionChange).include.
 func VerifInclude(c *CollectionChange, f FilterFunc) (*CollectionChange, bool) { return c.include(f) }
+
+// VerifChangesAfter exposes changesAfter, the stage Collection.onUpdate puts in front of
+// mergeCollectionExcess for subscriptions without backpressure.
+func VerifChangesAfter(in <-chan any, commit uint64) <-chan any { return changesAfter(in, commit) }
+
+// VerifPublished wraps a change the way the collection's bus carries it.
+func VerifPublished(change *CollectionChange, commit uint64) any {
+	return published{change: change, commit: commit}
+}
